@@ -176,8 +176,26 @@ class ElementProxy(Sequence):
                 except IndexError:
                     element = self.element_list.create_element(self.element_name, traversal_parent=True)
             if name == 'value':
+                # the elements created while traversing become actual children before the value is parsed (it is
+                # split with the delimiters of the parents); if the value is refused they go back to be temporary
+                promoted = []
+                e = element
+                while e is not None and e.parent is None and e.traversal_parent is not None:
+                    promoted.append((e, e.traversal_parent, e.traversal_parent.__dict__.get('_last_child_index')))
+                    e = e.traversal_parent
                 element.set_parent_to_traversal()
-            setattr(element, name, value)
+                try:
+                    setattr(element, name, value)
+                except Exception:
+                    for e, traversal_parent, last_child_index in promoted:
+                        traversal_parent.children.remove(e)
+                        e._parent = None
+                        e.traversal_parent = traversal_parent
+                        if last_child_index is not None:
+                            traversal_parent._last_child_index = last_child_index
+                    raise
+            else:
+                setattr(element, name, value)
 
     def __setitem__(self, index, value):
         self.element_list.set(self.element_name, value, index)
